@@ -705,6 +705,43 @@ func (c *Ctx) c08Rendezvous(pm *pairModel) {
 		})
 	}
 	r.Floor("C08/PAIR/rendezvous", "sends on the enforcer's request channels", n, 1)
+	// …and the enforcer answers every notice: from the select that takes a notice, the next
+	// round of the loop is not reachable without a close (of the notice's completion channel) on
+	// the way. A branch that goes round without it leaves the delivering (or removing) goroutine
+	// waiting for ever — with the mailbox's delivery half done
+	if loop := pm.enforcerLoop; loop != nil {
+		nSel := 0
+		isClose := func(x ssa.Instruction) bool {
+			if rd, isRD := x.(*ssa.RunDefers); isRD {
+				// defer close(md.done), registered on the way here
+				found := false
+				eng.EachInstr(rd.Parent(), func(y ssa.Instruction) {
+					if df, isDf := y.(*ssa.Defer); isDf && eng.CalleeName(df.Common()) == "builtin.close" && (df.Block() == rd.Block() || df.Block().Dominates(rd.Block())) {
+						found = true
+					}
+				})
+				return found
+			}
+			call, ok := x.(*ssa.Call)
+			return ok && eng.CalleeName(call.Common()) == "builtin.close"
+		}
+		eng.EachInstr(loop, func(in ssa.Instruction) {
+			sel, ok := in.(*ssa.Select)
+			if !ok || in.Parent() != loop {
+				return
+			}
+			nSel++
+			again := (&eng.Search{Target: func(x ssa.Instruction) bool { return x == ssa.Instruction(sel) }, Avoid: isClose, Deep: true}).After(sel)
+			if again != nil {
+				r.Bad("C08/PAIR/rendezvous", "enforcer-answers", p.InstrPos(sel), "the enforcer can take a notice here and come back for the next one without closing the notice's completion channel: the goroutine that sent it (a delivery, a removal, a purge) never returns")
+			} else {
+				r.Ok("C08/PAIR/rendezvous", "enforcer-answers", p.InstrPos(sel), "every round that takes a notice closes its completion channel before the next")
+			}
+		})
+		if nSel == 0 {
+			r.Undecided("C08/PAIR/rendezvous", "enforcer-answers", p.Pos(loop.Pos()), "the enforcer loop has no select: the shape this clause reads is gone")
+		}
+	}
 	// both channels are made where one is
 	var mkIn, mkRm []ssa.Instruction
 	for _, fs := range eng.StoresToField(pkgFuncs(p, "pkg/storage/mem"), pm.fIncoming) {
